@@ -25,6 +25,8 @@ def run(patch):
             return patch, None, "BUILD-FAILED " + r.stderr[:200]
         e2 = dict(os.environ, FPCHECK_REPO=T + "/repo", FPCHECK_VERIF=T + "/verif")
         r = subprocess.run(["/verif/run.sh", "all", "quick"], env=e2, capture_output=True, text=True)
+        if r.returncode not in (0, 1) or "ERROR" in r.stdout:
+            return patch, None, "CHECKER-ERROR rc=%d %s" % (r.returncode, (r.stdout + r.stderr)[-300:].replace("\n", " | "))
         props = sorted(set(re.findall(r'^VIOLATION property=(C\d+)', r.stdout, re.M)))
         details = [l.strip()[:300] for l in r.stdout.splitlines() if re.match(r'\s+(VIOLATED|UNDECIDED)', l)]
         return patch, props, details
